@@ -33,6 +33,14 @@ Theorem C09_terminates_adb_datagram_refuted : forall fuel d m,
   (N.of_nat fuel <= m_writes (c_m (h_conn (handle_adb fuel (mkConn [d] TZero m)))))%N.
 Proof. exact handle_adb_datagram_flood. Qed.
 
+(* memcached on a datagram port (since the data block of a store command is read with
+   io.ReadFull): ReadFull over bufio over the drained wrapper never ends while bytes are
+   missing - a store command announcing more bytes than the datagram holds *)
+Theorem C09_readfull_on_drained_datagram_never_returns : forall fuel want got b,
+  b_buf b = [] -> b_err b = ENone -> c_segs (b_c b) = [] -> c_term (b_c b) = TZero ->
+  (got < want)%nat -> read_full fuel want got b = None.
+Proof. exact read_full_drained_zero. Qed.
+
 (* ftp holds on to its pump goroutine after every connection whatsoever, never gives a
    listener back, and descriptors never fall below listeners *)
 Theorem C09_released_ftp_refuted : forall v6 dial fuel c,
@@ -51,7 +59,7 @@ Qed.
 
 (* ---- and holds everywhere else ---- *)
 
-(* outside the finding classes (ntp/echo/adb behind the datagram wrapper; ftp; smtp) every
+(* outside the finding classes (ntp/echo/adb/memcached behind the datagram wrapper; ftp; smtp) every
    handler finishes within [fuel_for c] and releases everything *)
 Theorem C09_outside_findings : forall s c, ~ finding_class s c -> finishes s c /\ releases s c.
 Proof. exact outside_findings. Qed.
@@ -69,6 +77,11 @@ Proof. exact handle_copy_returns. Qed.
 Theorem C09_terminates_bufio_services : forall s c,
   bufio_svc (sc_svc s) = true -> h_out (handle s (fuel_for c) c) = Returned.
 Proof. exact handle_bufio_returns. Qed.
+
+(* memcached returns on every stream connection (closed or silent) *)
+Theorem C09_terminates_memcached_stream : forall s c,
+  sc_svc s = Memcached -> c_term c <> TZero -> h_out (handle s (fuel_for c) c) = Returned.
+Proof. exact handle_memcached_scn_returns. Qed.
 
 (* ... because of the cut-off in bufio's fill: exactly [i] empty reads, then ErrNoProgress *)
 Theorem C09_bufio_cutoff : forall i buf c,
@@ -167,9 +180,19 @@ Example C09_nonvacuous_dummy :
   m_zero (c_m (h_conn (handle (mkScn Dummy true false DialNone) (fuel_for c) c))) = 100%N.
 Proof.
   split.
-  - unfold finding_class; cbn. intros [[_ [H|[H|H]]]|[H|H]]; discriminate.
+  - unfold finding_class; cbn. intros [[_ [H|[H|[H|H]]]]|[H|H]]; discriminate.
   - vm_compute. split; reflexivity.
 Qed.
+
+(* memcached datagram: 8-byte frame header, "set k 0 0 9", no data block: still reading when
+   the fuel that suffices for every terminating run is spent; other datagrams are fine *)
+Example C09_memcached_store_spin_witness :
+  let d := ([0;1;0;0;0;1;0;0] ++ [115;101;116;32;107;32;48;32;48;32;57;13;10])%N in
+  let s := mkScn Memcached true false DialNone in
+  h_out (handle s (fuel_for (mkConn [d] TZero m0)) (mkConn [d] TZero m0)) = OutOfFuel /\
+  h_out (handle s (1000 + fuel_for (mkConn [d] TZero m0)) (mkConn [d] TZero m0)) = OutOfFuel /\
+  h_out (handle s (fuel_for (mkConn [d] TEof m0)) (mkConn [d] TEof m0)) = Returned.
+Proof. vm_compute. repeat split; reflexivity. Qed.
 
 (* smtp, silence in the middle of a command: the partial line is taken as a command after the
    first idle deadline, the error only shows after a second one *)
@@ -177,6 +200,14 @@ Example C09_smtp_two_deadlines :
   let c := mkConn [[72;69;76;79;32;120;13;10]%N; [78;79;79]%N] TTimeout m0 in
   let h := handle (mkScn Smtp false false DialNone) (fuel_for c) c in
   h_out h = Returned /\ m_timeouts (c_m (h_conn h)) = 2%N.
+Proof. vm_compute. split; reflexivity. Qed.
+
+(* memcached, silence inside the data block of a store command: ReadFull, Discard and the
+   next ReadBytes each wait out a deadline of their own *)
+Example C09_memcached_three_deadlines :
+  let c := mkConn [[115;101;116;32;107;32;48;32;48;32;57;13;10;97]%N] TTimeout m0 in
+  let h := handle (mkScn Memcached false false DialNone) (fuel_for c) c in
+  h_out h = Returned /\ m_timeouts (c_m (h_conn h)) = 3%N.
 Proof. vm_compute. split; reflexivity. Qed.
 
 Example C09_adb_flood_hypotheses :
@@ -187,12 +218,14 @@ Proof. cbv zeta. split; [vm_compute; reflexivity|]. split; apply Nat.leb_le; vm_
 Print Assumptions C09_copy_on_drained_datagram_never_returns.
 Print Assumptions C09_terminates_ntp_echo_datagram_refuted.
 Print Assumptions C09_terminates_adb_datagram_refuted.
+Print Assumptions C09_readfull_on_drained_datagram_never_returns.
 Print Assumptions C09_released_ftp_refuted.
 Print Assumptions C09_released_smtp_refuted.
 Print Assumptions C09_full_refuted.
 Print Assumptions C09_outside_findings.
 Print Assumptions C09_terminates_ntp_echo_stream.
 Print Assumptions C09_terminates_bufio_services.
+Print Assumptions C09_terminates_memcached_stream.
 Print Assumptions C09_bufio_cutoff.
 Print Assumptions C09_terminates_adb_stream.
 Print Assumptions C09_ftp_never_spins.
